@@ -269,7 +269,7 @@ def ob_merge(order, preserve, timeout):
         for t in (A, Pt, B, O, Q):
             tg.addTier(t)
         before = snap_tg(tg)
-        sel = {"none": None, "all-in-order": ["a", "p", "b", "q"], "reversed": ["q", "b", "p", "a"], "empty": []}[order]
+        sel = {"none": None, "all-in-order": ["a", "p", "b", "q"], "reversed": ["q", "b", "p", "a"], "empty": [], "empty-tier-first": ["other", "a", "p", "b", "q"], "only-empty-tier": ["other", "q"]}[order]
         r = tg.mergeTiers(sel, preserve)
         if snap_tg(tg) != before:
             return "receiver mutated"
@@ -281,13 +281,20 @@ def ob_merge(order, preserve, timeout):
                 if snap_tier(r.getTier(nm)) != snap_tier(tg.getTier(nm)):
                     return "tier changed although nothing was selected"
             return True
-        if order == "reversed":
+        if order == "empty-tier-first":  # a tier without entries is a tier like any other
+            ei, ep = O.union(A).union(B), Pt.union(Q)
+        elif order == "only-empty-tier":
+            ei, ep = O, Q
+        elif order == "reversed":
             ei, ep = B.union(A), Q.union(Pt)
         elif order == "none":  # every tier is selected, in textgrid order
             ei, ep = A.union(B).union(O), Pt.union(Q)
         else:
             ei, ep = A.union(B), Pt.union(Q)
-        want = (["other"] if (preserve and order != "none") else []) + [ei.name, ep.name]
+        if order in ("empty-tier-first", "only-empty-tier"):
+            want = ([n for n in ("a", "p", "b", "other", "q") if n not in sel] if preserve else []) + [ei.name, ep.name]
+        else:
+            want = (["other"] if (preserve and order != "none") else []) + [ei.name, ep.name]
         if list(r.tierNames) != want:
             return "tier set/order"
         if snap_tier(r.getTier(ei.name)) != snap_tier(ei) or snap_tier(r.getTier(ep.name)) != snap_tier(ep):
@@ -311,8 +318,10 @@ def obligations(tier):
         obs.append(ob_merge("none", True, T))
         obs.append(ob_merge("reversed", False, T))
         obs.append(ob_merge("empty", True, T))
+        obs.append(ob_merge("empty-tier-first", False, T))
+        obs.append(ob_merge("only-empty-tier", True, T))
     else:
-        for o in ("none", "all-in-order", "reversed", "empty"):
+        for o in ("none", "all-in-order", "reversed", "empty", "empty-tier-first", "only-empty-tier"):
             for p in (True, False):
                 obs.append(ob_merge(o, p, T))
     # tier-wise edits: the Textgrid-level obligations of C06-C09 (each result tier == the
